@@ -19,7 +19,7 @@ SPEC = dict(
     quick_s=60, thorough_s=600,
     rule=("one run = one tape: relay resources (MaxReservations 1-4, per-IP 1-2, per-ASN 1-2 when IPv6 sources are drawn, MaxCircuits 1-2, TTL, data / duration limit or "
           "unlimited), ACL, population (3-5 clients on shared / distinct public IPs, raw or real circuit clients, optional client "
-          "that reaches the relay through a second relay), a history of 4-12 operations (RESERVE real / raw, refresh, move to "
+          "that reaches the relay through a second relay and may add / drop a direct connection next to the relayed one), a history of 4-12 operations (RESERVE real / raw, refresh, move to "
           "another IP, CONNECT raw with payloads around the limit and scripted hop / stop misbehaviour or resource refusal, "
           "CONNECT through the real client transport, hold past the duration limit, disconnect, clock advance, concurrent "
           "batches) and the schedule; non-trivial = at least one reservation granted and one CONNECT attempted; distinct = "
@@ -30,7 +30,8 @@ SPEC = dict(
             "no-reservation-never-reserved", "no-reservation-after-disconnect", "no-reservation-after-expiry-and-collection",
             "connect-ok-on-expired-uncollected-or-uncertain", "disconnect-of-reservation-holder",
             "data-limit-hit-forward", "data-limit-hit-backward", "data-exactly-at-limit-forward", "data-exactly-at-limit-backward",
-            "duration-limit-hit", "real-connect-ok", "real-echo-ok", "connection-failed"],
+            "duration-limit-hit", "x-direct-and-relayed", "x-reservation-dropped-limited-connection-remains",
+            "x-reservation-kept-unlimited-relayed-connection", "real-connect-ok", "real-echo-ok", "connection-failed"],
     real=["ALL of the following run as tasks of the seeded scheduler (instrumented)", "circuitv2 relay (relay.go, constraints.go)",
           "circuitv2 client (Reserve, transport dial / listen / stop handler)", "basic host, identify", "swarm", "tcp transport dial path",
           "upgrader + listener", "noise / insecure", "multistream-select", "yamux", "resource manager (real, infinite limits) behind "
@@ -38,4 +39,6 @@ SPEC = dict(
     stubs=["wire: simnet TCP model", "ACL filter scripted by the harness", "byzantine sources / destinations speaking raw hop / stop messages",
            "refusing resource-manager wrappers (delegate to the real one)"],
     assume=["virtual clock of testing/synctest", "reservation collection happens at least every 2 minutes"],
+    # TEMPORARY (lead): priority / pause scheduling modes off until the run-829 alarm is understood
+    env={"VERIF_PCT_PERMILLE": "-1", "VERIF_PAUSE_PERMILLE": "-1"},
 )
